@@ -21,7 +21,7 @@ def plan(tier, seed):
     specs = [{"kind": "seeds", "count": n // shards} for _ in range(shards)]
     specs.append({"kind": "vectors"})
     specs.append({"kind": "malformed", "count": 300 if tier == "quick" else 6000})
-    specs.append({"kind": "files", "count": 10 if tier == "quick" else 200})
+    specs.append({"kind": "files", "count": 20 if tier == "quick" else 400})
     return specs
 
 
@@ -234,6 +234,13 @@ def run_files(spec, rec, lib):
     d = spec["scratch"]
     for i in range(spec["count"]):
         base = os.path.join(d, "key%d" % i)
+        # the target names may already exist (older key files of other sizes / formats, e.g. a hex-encoded key)
+        pre = ["none", "longer_hex", "shorter", "same_size", "much_longer"][i % 5]
+        if pre != "none":
+            for ext in (".pri", ".pub"):
+                with open(base + ext, "wb") as fh:
+                    fh.write({"longer_hex": b"ab" * 32 + b"\n", "shorter": b"\x01" * 7, "same_size": b"\x02" * 32, "much_longer": b"\x03" * 4096}[pre])
+        rec.hist("preexisting_keyfile", pre)
         o = boundary.call(lib, M.gen_and_write_keys, base)
         rec.case("files|%d" % i)
         case = {"kind": "files"}
